@@ -26,7 +26,7 @@ pub fn plan() -> Plan {
         profiles: vec![mixed, turns, single, lossy],
         directed: vec![],
         quick_histories: 400,
-        thorough_histories: 60_000,
+        thorough_histories: 240_000,
         s5: Some((2, 30, s4common::s5_default(false, 0))),
         enumerate_session_end: None,
         enumerate_symbols: None,
